@@ -6,6 +6,7 @@ import (
 	"errors"
 	"fmt"
 	"io"
+	"os"
 	"sort"
 	"strconv"
 	"strings"
@@ -22,6 +23,9 @@ import (
 type memLogger struct{ lines []string }
 
 func (l *memLogger) Printf(format string, args ...interface{}) {
+	if os.Getenv("VERIF_SRV_DEBUG") != "" && len(l.lines) < 4000 {
+		fmt.Fprintf(os.Stderr, "SRV: "+format, args...)
+	}
 	if len(l.lines) < 2000 {
 		l.lines = append(l.lines, fmt.Sprintf(format, args...))
 	}
@@ -42,17 +46,18 @@ type handlerEvent struct {
 	snap *Snapshot
 	gate chan struct{}
 	name string
+	gor  string // logical goroutine name
 }
 
 // laneState is the run-time state of a lane.
 type laneState struct {
-	idx     int
-	lane    *Lane
-	next    int      // next op
-	queue   [][]byte // frames already encoded (rest of a header block) that must go out before the next op
-	id      uint32   // stream id once assigned
-	bodyOff int
-	sentAll bool
+	idx       int
+	lane      *Lane
+	next      int      // next op
+	queue     [][]byte // frames already encoded (rest of a header block) that must go out before the next op
+	id        uint32   // stream id once assigned
+	bodyOff   int
+	sentAll   bool
 	keepBlock bool
 	peerRST   bool // the peer itself reset the lane's stream
 	// sender-side flow control for this stream (peer → server)
@@ -86,6 +91,7 @@ type PeerStream struct {
 type gate struct {
 	rid  int
 	name string
+	gor  string
 	ch   chan struct{}
 	open bool
 }
@@ -150,7 +156,7 @@ type SrvWorld struct {
 	faultsDone map[int]bool
 	phase      int // 0 workload, 1 drain (no faults, all gates open eagerly), 2 teardown
 
-	online func(w *SrvWorld) *Violation
+	online  func(w *SrvWorld) *Violation
 	onFrame func(w *SrvWorld, f *Frame)
 	Probes  map[string]int
 	Harness string // non-empty: harness bug, not a verdict
@@ -181,7 +187,7 @@ type peerSettingsVal struct {
 // permissiveInit is the largest initial stream window the server may legitimately believe in.
 func (w *SrvWorld) permissiveInit() int64 {
 	m := w.ackedInitWin
-	for _, v := range w.peerSettingsVals[w.ackedSettings:] {
+	for _, v := range w.peerSettingsVals[min(w.ackedSettings, len(w.peerSettingsVals)):] {
 		if v.hasInit && v.init > m {
 			m = v.init
 		}
@@ -191,7 +197,7 @@ func (w *SrvWorld) permissiveInit() int64 {
 
 func (w *SrvWorld) permissiveMaxFrame() int64 {
 	m := w.ackedMaxFrame
-	for _, v := range w.peerSettingsVals[w.ackedSettings:] {
+	for _, v := range w.peerSettingsVals[min(w.ackedSettings, len(w.peerSettingsVals)):] {
 		if v.hasFrame && v.frame > m {
 			m = v.frame
 		}
@@ -277,6 +283,7 @@ func NewSrvWorld(sim *Sim, plan *SrvPlan) *SrvWorld {
 		PingInterval:         plan.Srv.PingInterval,
 		MaxConcurrentStreams: plan.Srv.MaxConcurrentStreams,
 		MaxHeaderListSize:    plan.Srv.MaxHeaderListSize,
+		Debug:                os.Getenv("VERIF_SRV_DEBUG") != "",
 	})
 	// preface: always one piece (ReadPreface does a single Read); then the peer's SETTINGS
 	w.c2s.Readable = append(w.c2s.Readable, xh2.ClientPreface...)
@@ -396,7 +403,7 @@ func (w *SrvWorld) handler(ctx *fasthttp.RequestCtx) {
 	g := make(chan struct{}, 1)
 	name := "h" + strconv.Itoa(rid)
 	simrt.Own(ctx, name)
-	w.hev <- handlerEvent{kind: "enter", rid: rid, snap: snap, gate: g, name: name}
+	w.hev <- handlerEvent{kind: "enter", rid: rid, snap: snap, gate: g, name: name, gor: simrt.SelfName()}
 	if w.plan.GateMode != "open" {
 		<-g
 		simrt.UserYield("handler.gate")
@@ -449,7 +456,7 @@ func (w *SrvWorld) drainEvents() {
 				if w.Gauge > w.GaugeHWM {
 					w.GaugeHWM = w.Gauge
 				}
-				w.gates = append(w.gates, &gate{rid: ev.rid, name: ev.name, ch: ev.gate, open: w.plan.GateMode == "open"})
+				w.gates = append(w.gates, &gate{rid: ev.rid, name: ev.name, gor: ev.gor, ch: ev.gate, open: w.plan.GateMode == "open"})
 				w.EntrySeq = append(w.EntrySeq, fmt.Sprintf("%d enter %d", w.sim.Steps, ev.rid))
 				w.sim.Obs(fmt.Sprintf("enter %d %s %s %d", ev.rid, ev.snap.Method, ev.snap.URI, len(ev.snap.Body)))
 			case "exit":
@@ -1005,7 +1012,7 @@ func (w *SrvWorld) EnvActions() []Action {
 	}
 	// gates
 	for _, g := range w.gates {
-		if !g.open {
+		if !g.open && !(w.plan.GateMode == "hold" && w.phase < 4) {
 			g := g
 			wt := 5
 			if w.phase >= 1 {
@@ -1057,7 +1064,7 @@ func (w *SrvWorld) drainGrantAction() *Action {
 		}
 		// least window the server can believe in: acked initial (or any unacked lower one) + updates - received
 		lo := w.ackedInitWin
-		for _, v := range w.peerSettingsVals[w.ackedSettings:] {
+		for _, v := range w.peerSettingsVals[min(w.ackedSettings, len(w.peerSettingsVals)):] {
 			if v.hasInit && v.init < lo {
 				lo = v.init
 			}
@@ -1103,13 +1110,24 @@ func (w *SrvWorld) applyFault(f Fault) {
 		w.stallS2C = false
 	case "deadline-err":
 		w.conn.DeadlineErr = errInjected
+	case "flip":
+		// flip one bit of the client→server stream at an offset from the current position
+		w.c2s.FlipAt = append(w.c2s.FlipAt, [2]int64{w.c2s.Injected + f.At, 1 << (uint(f.At) % 8)})
+	case "close-peer":
+		w.peerGone = true
+		w.c2s.SetEOF()
+		w.s2c.readerClosed = true
+		poke(w.s2c.wsig)
 	}
 }
 
-// PeerClose makes the peer close its side cleanly (EOF towards the server, stops reading).
+// PeerClose makes the peer go away for good: EOF towards the server after what is in flight, and the
+// server's writes fail from now on (a closed socket answers with RST), including one that is blocked.
 func (w *SrvWorld) PeerClose() {
 	w.peerGone = true
 	w.c2s.SetEOF()
+	w.s2c.readerClosed = true
+	poke(w.s2c.wsig)
 }
 
 func (w *SrvWorld) Check() *Violation {
